@@ -31,6 +31,7 @@ OUT_OF_SCOPE = {
     "C16_u": "written against C16 but is about how a command line is split into tokens (shlex instead of split): replies and effects of commands with quotes differ from the method call -> caught by the C17 check (1100 programs) and the C18 check",
     "C18_u": "written against C18 but lives in the server's connection callback (connections registered by peer address, which is '' for every Unix client): caught by the C19 check, the C18 harness drives sessions directly",
     "C01_v": "needs a user function that returns a hand-written collections.abc.Coroutine object without __qualname__ instead of a coroutine: workers here return real coroutines (or, as a fault, no coroutine at all); not generated",
+    "C06_v": "not a violation as the oracle reads the statement: with several offending ids of different kinds, *which* of the applicable errors is raised is left open (DESIGN 6, set-valued oracles); nothing is cancelled in either version",
     "C04_j": "needs pool_size to be reassigned while a spawner waits for room - the territory of the open finding D4 (on the unchanged tree such a waiter also stays blocked after the assignment), where completeness is not demanded",
 }
 
